@@ -9,7 +9,7 @@ for d in sorted(glob.glob(os.path.join(root, "seeded", "*"))):
     for f in glob.glob(os.path.join(d, "result_*.json")):
         r = json.load(open(f))
         for p, v in r["results"].items():
-            line = (v["lines"] or ["?"])[0]
+            line = next((l for l in v["lines"] if l.startswith("VIOLATION")), (v["lines"] or ["?"])[-1])
             kind = "caught (concrete input)" if line.startswith("VIOLATION") and "no-failing-input-found" not in line else \
                    "caught (no-failing-input-found)" if line.startswith("VIOLATION") else "MISSED"
             res[p] = kind
